@@ -123,6 +123,16 @@ PROPS = {
              "loaders: the positional read_csv column map is ordered by the file's own header and never re-ordered, DataFrame/Parquet "
              "inserts name their columns, and no loader decision is taken from a positional sample of the data.",
         note="Trusts DuckDB's set semantics for the rest. Same known finding as C15."),
+
+    "C05": dict(
+        claimed=True, design="§3 C05",
+        technique="grammar-derived operator arity vs def-use of the operand list per operator branch; CFG per-iteration must-append; SQL-skeleton scan for positional UNION ALL over star projections; classification of projection-skip conditions as order-sensitive or not",
+        text="Decides the structural clauses of the set-operator property: every operand of the n-ary operators (arity read from Vtl.g4) "
+             "reaches the generated SQL, each child contributes exactly one operand on every path, positional combination (UNION ALL) "
+             "happens only over explicit name-based projections, nested query operands are not re-quoted, and matching keys are the "
+             "identifiers. Found and repaired three defects (n-ary intersect, symdiff column mix-up, nested symdiff).",
+        note="Does not decide that SEMI/ANTI JOIN on the identifier columns yields the VTL result (DuckDB semantics). union's "
+             "first-occurrence numbering is a reasoned exemption of the order lint (see C15)."),
 }
 
 NA_REASONS = {
